@@ -132,8 +132,11 @@ ExpD(defs, filter, instrs, visiting) ==
 Refs(defs) == {<<a, b>> \in SeqNames(defs) \X SeqNames(defs) :
                   \E n \in DOMAIN Def(defs, a).gates : Def(defs, a).gates[n].name = b}
 ClosedUnder(E, X) == \A e \in E : e[1] \in X => e[2] \in X
-ReachFrom(defs, S) == {n \in SeqNames(defs) :
-                         \A X \in SUBSET SeqNames(defs) : (S \subseteq X /\ ClosedUnder(Refs(defs), X)) => n \in X}
+ReachFrom(defs, S) ==
+  LET E == Refs(defs)
+      nodes == SeqNames(defs)
+      closedSupersets == {X \in SUBSET nodes : S \subseteq X /\ ClosedUnder(E, X)}
+  IN {n \in nodes : \A X \in closedSupersets : n \in X}
 Unselected(defs, filter) == {n \in SeqNames(defs) : n \notin filter}
 KeepD(defs, filter) == (DefNames(defs) \ SeqNames(defs)) \cup ReachFrom(defs, Unselected(defs, filter))
 
@@ -189,6 +192,17 @@ SourcesExact(map, out) == \A ti \in 0..(Len(out) - 1) : Len(ListSources(map, ti)
 ----------------------------------------------------------------------------
 \* (1) TRANSCRIPTION
 
+\* Deviation switches (all off in the shipped configurations).  Each reproduces one plausible wrong edit of
+\* the code (DESIGN.md section 11, rows C20/C21) so that TLC can show the invariant that catches it
+\* (configurations spec/mc/MC_C20_deviation_*.cfg; see the comments there):
+\*   "KeepDirectOnly"        the keep loop follows references one step only (no transitive closure)
+\*   "NoStackPop"            with_gate_sequence forgets to pop the ExpansionStack
+\*   "RangeFromSourceIndex"  the start of a Rewritten range is taken from the source index
+\*   "CycleCheckFirst"       harmless reordering of the checks (cycle check before the parameter count):
+\*                           no invariant may fail, only the reported category changes
+CONSTANT Deviations
+Dev(d) == d \in Deviations
+
 \* petgraph::algo::has_path_connecting(graph, from, to): Dfs with an explicit stack and a
 \* discovered set; the walk starts at `from` itself, so from = to is connected.
 RECURSIVE DfsFinds(_, _, _, _, _)
@@ -208,7 +222,8 @@ SeqOrder(defs) == LET isSeq(d) == d.kind = "seq" IN
 
 \* the checks of gate_sequence_from_instruction and DefGateSequence::expand, in the code's order
 CheckErr(d, g, stack) ==
-  IF Len(d.params) # Len(g.params) THEN Some("ParameterCount")
+  IF Dev("CycleCheckFirst") /\ g.name \in Range(stack) THEN Some("Cyclic")
+  ELSE IF Len(d.params) # Len(g.params) THEN Some("ParameterCount")
   ELSE IF g.mods # <<>> THEN Some("GateModifiersUnsupported")
   ELSE IF g.name \in Range(stack) THEN Some("Cyclic")
   ELSE IF Len(g.qubits) # Len(d.qubits) THEN Some("QubitCount")
@@ -238,7 +253,9 @@ Start(ds, f, b) ==
 KeepSource ==
   /\ phase = "keep" /\ ksrc # <<>>
   /\ LET i == Head(ksrc) IN
-     kreach' = kreach \cup {j \in SeqNames(defs) : DfsFinds(SeqOrder(defs), Refs(defs), <<i>>, {}, j)}
+     kreach' = kreach \cup (IF Dev("KeepDirectOnly")
+                            THEN {i} \cup {j \in SeqNames(defs) : <<i, j>> \in Refs(defs)}
+                            ELSE {j \in SeqNames(defs) : DfsFinds(SeqOrder(defs), Refs(defs), <<i>>, {}, j)})
   /\ ksrc' = Tail(ksrc)
   /\ UNCHANGED <<defs, filter, body, phase, kept, frames, estack, result>>
 
@@ -284,12 +301,12 @@ Return ==
   /\ phase = "run" /\ Top.i > Len(Top.src) /\ Len(frames) > 1
   /\ LET child == Top
          parent == frames[Len(frames) - 1]
-         from == Len(parent.out) IN
+         from == IF Dev("RangeFromSourceIndex") THEN parent.i - 1 ELSE Len(parent.out) IN
      frames' = [SubSeq(frames, 1, Len(frames) - 1) EXCEPT ![Len(frames) - 1] =
                   [parent EXCEPT !.i = @ + 1, !.out = @ \o child.out,
                                  !.ents = Append(@, [s |-> parent.i - 1,
                                                      t |-> Rew(child.name, from, from + Len(child.out), child.ents)])]]
-  /\ estack' = SubSeq(estack, 1, Len(estack) - 1)
+  /\ estack' = IF Dev("NoStackPop") THEN estack ELSE SubSeq(estack, 1, Len(estack) - 1)
   /\ UNCHANGED <<defs, filter, body, phase, ksrc, kreach, kept, result>>
 
 Finish ==
